@@ -147,7 +147,14 @@ def same_values(got, exp, tol):
 
 
 def like(state_values, x):
-    """argument in the number flavour of the state"""
+    """argument in the number flavour of the state; a value equal to an existing knot is passed as that very knot
+    (a float copy of a Fraction knot would be a nearly-coincident knot, which is outside every property's domain)"""
+    for v in state_values:
+        try:
+            if lib.to_frac(v) == x:
+                return v
+        except Exception:  # noqa: BLE001
+            pass
     if has_float(state_values):
         return float(x)
     x = F(x)
